@@ -579,8 +579,12 @@ bool CanettiGennaroJareckiKrawczykRabinRVSS::Share
 		complaints_counter.clear(), complaints_from.clear(); // reset for final complaint resolution
 		for (size_t j = 0; j < n; j++)
 			complaints_counter.push_back(0); // initialize counter
+		std::vector< std::vector<size_t> > complainers(n); // who complained against whom
 		for (std::vector<size_t>::iterator jt = complaints.begin(); jt != complaints.end(); ++jt)
+		{
 			complaints_counter[dkg2idx[*jt]]++; // count my own complaints
+			complainers[dkg2idx[*jt]].push_back(i);
+		}
 		complaints.clear();
 		for (size_t j = 0; j < n; j++)
 		{
@@ -602,6 +606,7 @@ bool CanettiGennaroJareckiKrawczykRabinRVSS::Share
 					{
 						err << "RVSS(" << label << "): P_" << idx2dkg[i] << ": receiving complaint against P_" << idx2dkg[who] << " from P_" << idx2dkg[j] << std::endl;
 						complaints_counter[who]++;
+						complainers[who].push_back(j);
 						dup.insert(std::pair<size_t, bool>(who, true)); // mark as counted for $P_j$
 						if (who == i)
 							complaints_from.push_back(idx2dkg[j]); // remember where the complaints are from
@@ -646,6 +651,7 @@ bool CanettiGennaroJareckiKrawczykRabinRVSS::Share
 			if (j != i)
 			{
 				size_t cnt = 0;
+				std::vector<size_t> answered; // complaints answered by $P_j$
 				do
 				{
 					if (!rbc->DeliverFrom(lhs, j))
@@ -705,6 +711,7 @@ bool CanettiGennaroJareckiKrawczykRabinRVSS::Share
 					}
 					else
 					{
+						answered.push_back(who);
 						// don't be too curious, store only shares for this player
 						if (who == i)
 						{
@@ -717,6 +724,16 @@ bool CanettiGennaroJareckiKrawczykRabinRVSS::Share
 					cnt++;
 				}
 				while (cnt <= n);
+				// every complaint against $P_j$ must have been answered
+				for (size_t c = 0; c < complainers[j].size(); c++)
+				{
+					if (std::find(answered.begin(), answered.end(), complainers[j][c]) == answered.end())
+					{
+						err << "RVSS(" << label << "): P_" << idx2dkg[i] << ": complaint not answered; complaint against P_" << idx2dkg[j] << std::endl;
+						complaints.push_back(idx2dkg[j]);
+						break;
+					}
+				}
 			}
 		}
 		QUAL.clear();
@@ -1519,8 +1536,12 @@ bool CanettiGennaroJareckiKrawczykRabinZVSS::Share
 		complaints_counter.clear(), complaints_from.clear(); // reset for final complaint resolution
 		for (size_t j = 0; j < n; j++)
 			complaints_counter.push_back(0); // initialize counter
+		std::vector< std::vector<size_t> > complainers(n); // who complained against whom
 		for (std::vector<size_t>::iterator it = complaints.begin(); it != complaints.end(); ++it)
+		{
 			complaints_counter[dkg2idx[*it]]++; // count my own complaints
+			complainers[dkg2idx[*it]].push_back(i);
+		}
 		complaints.clear();
 		for (size_t j = 0; j < n; j++)
 		{
@@ -1542,6 +1563,7 @@ bool CanettiGennaroJareckiKrawczykRabinZVSS::Share
 					{
 						err << "ZVSS(" << label << "): P_" << idx2dkg[i] << ": receiving complaint against P_" << idx2dkg[who] << " from P_" << idx2dkg[j] << std::endl;
 						complaints_counter[who]++;
+						complainers[who].push_back(j);
 						dup.insert(std::pair<size_t, bool>(who, true)); // mark as counted for $P_j$
 						if (who == i)
 							complaints_from.push_back(idx2dkg[j]);
@@ -1587,6 +1609,7 @@ bool CanettiGennaroJareckiKrawczykRabinZVSS::Share
 			if (j != i)
 			{
 				size_t cnt = 0;
+				std::vector<size_t> answered; // complaints answered by $P_j$
 				do
 				{
 					if (!rbc->DeliverFrom(lhs, j))
@@ -1646,6 +1669,7 @@ bool CanettiGennaroJareckiKrawczykRabinZVSS::Share
 					}
 					else
 					{
+						answered.push_back(who);
 						// don't be too curious
 						if (who == i)
 						{
@@ -1658,6 +1682,16 @@ bool CanettiGennaroJareckiKrawczykRabinZVSS::Share
 					cnt++;
 				}
 				while (cnt <= n);
+				// every complaint against $P_j$ must have been answered
+				for (size_t c = 0; c < complainers[j].size(); c++)
+				{
+					if (std::find(answered.begin(), answered.end(), complainers[j][c]) == answered.end())
+					{
+						err << "ZVSS(" << label << "): P_" << idx2dkg[i] << ": complaint not answered; complaint against P_" << idx2dkg[j] << std::endl;
+						complaints.push_back(idx2dkg[j]);
+						break;
+					}
+				}
 			}
 		}
 		QUAL.clear();
